@@ -65,7 +65,7 @@ def at4_handshake(inst):
     body = b""
     for z in sorted(inst["zones"]):
         d = inst["zones"][z]
-        t = (((225 + 500) << 5) & 0xFFE0) if d.get("sensor") else 0xFF00
+        t = (((225 + 500) << 5) & 0xFFE0) if d.get("sensor") and not d.get("no_reading") else 0xFF00
         body += bytes([(d.get("power", 1) << 6) | z, (d.get("ctrl", 0) << 7) | d.get("damper", 50),
                        (0x40 if d.get("turbo") else 0) | (d.get("setpoint", 22) & 0x3F), 0x80 if d.get("sensor") else 0, t >> 8, t & 0xFF])
     ops.append(msg(0x2B, body))
@@ -101,7 +101,8 @@ def at5_handshake(inst):
     for z in sorted(inst["zones"]):
         d = inst["zones"][z]
         recs.append([(d.get("power", 1) << 6) | z, (d.get("ctrl", 0) << 7) | d.get("damper", 50), d.get("setpoint", 22) * 10 - 100,
-                     0x80 if d.get("sensor") else 0, (725 >> 8) if d.get("sensor") else 0xFF, (725 & 255) if d.get("sensor") else 0xFF, 0, 0])
+                     0x80 if d.get("sensor") else 0, (725 >> 8) if d.get("sensor") and not d.get("no_reading") else 0xFF,
+                     (725 & 255) if d.get("sensor") and not d.get("no_reading") else 0xFF, 0, 0])
     ops.append(cs(0x21, 8, recs))
     return ops
 
@@ -122,7 +123,8 @@ def installs(gen, thorough=False):
     full_fans = 0x7F if gen == 4 else 0xFF
     out = [
         dict(acs=[dict(id=0, modes=0x1F, fans=full_fans, lo=16, hi=30, zones=list(range(0, 16)), mode=4)],
-             zones={z: dict(sensor=(z % 2 == 0), turbo=(z % 4 == 0), ctrl=(1 if z % 2 == 0 else 0)) for z in range(16)}),
+             # (zones 2, 8, 14: a wireless sensor that has lost contact - the sensor flag is set, the reading is "not available")
+             zones={z: dict(sensor=(z % 2 == 0), turbo=(z % 4 == 0), ctrl=(1 if z % 2 == 0 else 0), no_reading=(z % 6 == 2)) for z in range(16)}),
         dict(acs=[dict(id=0, modes=0x1F, fans=full_fans, lo=17, hi=28, lo_heat=15, hi_heat=31, zones=[0, 1], mode=1),
                   dict(id=top, modes=0x13, fans=0x0E, lo=18, hi=25, zones=[14, 15], mode=4)],
              zones={0: dict(sensor=True, ctrl=1), 1: dict(sensor=False), 14: dict(sensor=True, turbo=True, ctrl=1), 15: dict(sensor=True, ctrl=0)}),
